@@ -1530,3 +1530,121 @@ def pc_evolver_rule(chk, src, rule, tableaux):
     ok = isinstance(res, StS) and set(res.terms) == set(want) and all(sp.simplify(res.terms[k] - want[k]) == 0 for k in want)
     chk.ob(rule, "Taylor evolver = sum_k (-i dt)^k c_k H^k y", ok, ft.where, {str(k): str(v) for k, v in getattr(res, "terms", {}).items()} if not ok else "equal", "equal", line=ft.node.lineno,
            detail="term k of the Taylor propagator must be scaled by (-i dt)^k times the k-th coefficient of the configured expansion")
+
+
+def canonical_typestate_rule(chk, src, rule_check, rule_ensure):
+    """abstract runs on chains whose sites carry an orthogonality state ('L' left-orthonormal, 'R' right-orthonormal, 'C' centre, '?' unknown):
+    (1) check_left_canonical / check_right_canonical are run on every chain of 2, 3, 5 sites with at most one site not in the wanted state (and the far end site in either state):
+        the verdict must be the definition - sites 0..n-2 left-orthonormal, resp. sites 1..n-1 right-orthonormal, the far end site irrelevant;
+    (2) ensure_left_canonical / ensure_right_canonical are run (canonicalise, iter_idx_list, _switch_direction and the checks from source; _push_cano = 'site idx becomes an isometry
+        in the sweep direction, the centre moves on, the label centre follows', move_qnidx = 'the label centre is moved') from every combination of direction flag, label
+        centre and tensor state: the object returned must be in the advertised form with the label centre at the far end and the direction flag ready for the next sweep,
+        and no assertion of the sweep may fail on the way."""
+    resolve = class_resolver(src, {"MatrixProduct": MP})
+
+    class Site(Sym):
+        def __init__(self, chain, k):
+            super().__init__(f"site{k}")
+            self.chain, self.k = chain, k
+
+        def check_lortho(self, rtol=None, atol=None):
+            return self.chain.orth[self.k] == "L"
+
+        def check_rortho(self, rtol=None, atol=None):
+            return self.chain.orth[self.k] == "R"
+
+    class CC(Sym):
+        def __init__(self, orth, to_right, qnidx):
+            super().__init__("chain")
+            self._cls = "MatrixProduct"
+            self.orth, self.to_right, self.qnidx, self.site_num = list(orth), to_right, qnidx, len(orth)
+            self.log = []
+            self._sites = [Site(self, k) for k in range(len(orth))]
+
+        def __len__(self):
+            return self.site_num
+
+        def __getitem__(self, k):
+            return self._sites[k]
+
+        def __iter__(self):
+            return iter(self._sites)
+
+        def move_qnidx(self, dst):
+            if not isinstance(dst, int) or not 0 <= dst < self.site_num:
+                raise SymRaise(f"move_qnidx({dst!r}) outside the chain")
+            self.qnidx = dst
+            self.log.append(("move", dst))
+
+        def _push_cano(self, idx):
+            n = self.site_num
+            nxt = idx + 1 if self.to_right else idx - 1
+            if not (isinstance(idx, int) and 0 <= idx < n and 0 <= nxt < n):
+                raise SymRaise(f"_push_cano({idx!r}) with to_right={self.to_right} leaves the chain")
+            if self.qnidx != idx:
+                self.log.append(("label centre not at the pushed site", idx, self.qnidx))
+            self.orth[idx] = "L" if self.to_right else "R"
+            self.orth[nxt] = "C"
+            self.qnidx = nxt
+            self.log.append(("push", idx))
+
+    def run(fn, me, *args):
+        it = SymInterp(src, resolve, {"len": len, "range": range, "logger": Blob("logger"), "xp": Blob("xp"), "np": Blob("np")})
+        it.max_depth = 8
+        it.check_asserts = True
+        return it.call_function(src.func(MP, f"MatrixProduct.{fn}"), [me] + list(args))
+    # ---- (1) the checks
+    for fn, good, span in (("check_left_canonical", "L", lambda n: range(0, n - 1)), ("check_right_canonical", "R", lambda n: range(1, n))):
+        fi = src.func(MP, f"MatrixProduct.{fn}")
+        for n in (2, 3, 5):
+            probs = []
+            far = n - 1 if good == "L" else 0
+            for far_state in (good, "C"):
+                for defect in [None] + list(range(n)):
+                    orth = [good] * n
+                    orth[far] = far_state
+                    if defect is not None:
+                        orth[defect] = "?"
+                    want = all(orth[i] == good for i in span(n))
+                    try:
+                        got = run(fn, CC(orth, good == "R", far))
+                    except SymRaise as e:
+                        got = f"raises {e}"
+                    if got is not want:
+                        probs.append(f"sites {''.join(orth)}: verdict {got}, definition {want}")
+            chk.ob(rule_check, f"{fn}[n={n}] = definition on every chain with at most one defect", not probs, fi.where, probs[:3] or "equal", "equal", line=fi.node.lineno,
+                   detail="a canonical-form check that skips a site or tests the wrong orthogonality reports a non-canonical state as canonical: ensure_*_canonical then returns "
+                          "without sweeping and compress() / bond singular values work on a non-isometric site; " + "; ".join(probs[:2]))
+    # ---- (2) ensure_*
+    for fn, good in (("ensure_left_canonical", "L"), ("ensure_right_canonical", "R")):
+        fi = src.func(MP, f"MatrixProduct.{fn}")
+        for n in (2, 4):
+            probs = []
+            ncfg = 0
+            states = {"left-canonical": ["L"] * (n - 1) + ["C"], "right-canonical": ["C"] + ["R"] * (n - 1), "not canonical": ["?"] * n, "mixed": ["L"] * (n // 2) + ["C"] + ["R"] * (n - n // 2 - 1)}
+            for sname, orth in states.items():
+                for to_right in (True, False):
+                    for qnidx in sorted({0, n - 1, n // 2}):
+                        me = CC(orth, to_right, qnidx)
+                        ncfg += 1
+                        tag = f"{sname}, to_right={to_right}, label centre {qnidx}"
+                        try:
+                            res = run(fn, me)
+                        except SymRaise as e:
+                            probs.append(f"[{tag}] raises {e}")
+                            continue
+                        if res is not me:
+                            probs.append(f"[{tag}] does not return the object")
+                            continue
+                        span = range(0, n - 1) if good == "L" else range(1, n)
+                        far = n - 1 if good == "L" else 0
+                        if not all(me.orth[i] == good for i in span):
+                            probs.append(f"[{tag}] sites end as {''.join(me.orth)}")
+                        elif me.qnidx != far:
+                            probs.append(f"[{tag}] label centre ends at site {me.qnidx}, the tensor centre is at site {far}")
+                        elif me.to_right is not (good == "R"):
+                            probs.append(f"[{tag}] direction flag ends as to_right={me.to_right}: the next sweep starts from the wrong end")
+                        elif any(x[0] == "label centre not at the pushed site" for x in me.log):
+                            probs.append(f"[{tag}] sweep pushes site {[x for x in me.log if x[0] != 'push' and x[0] != 'move'][0][1]} while the label centre is elsewhere")
+            chk.ob(rule_ensure, f"{fn}[n={n}]: {ncfg} start configurations end in the advertised form", not probs, fi.where, probs[:3] or "advertised form", "advertised form", line=fi.node.lineno,
+                   detail=f"{fn} must leave sites in the advertised canonical form with label centre and direction flag consistent, from every start configuration; " + "; ".join(probs[:2]))
